@@ -420,6 +420,17 @@ fn boundary_numerals(bits: u32) -> Vec<(u128, bool)> {
         vals.push(1u128 << k);
         vals.push((1u128 << k) + 1);
     }
+    // constants of /repo's sources (srcdict.rs) with their neighbours, as values and as digit counts
+    for (c, _new) in vh_proto::srcdict::dict().ints.iter() {
+        let c = *c as u128;
+        vals.push(c.saturating_sub(1));
+        vals.push(c);
+        vals.push(c + 1);
+        if c >= 2 && c <= 38 {
+            vals.push(10u128.pow(c as u32 - 1));
+            vals.push(10u128.pow(c as u32) - 1);
+        }
+    }
     vals.sort();
     vals.dedup();
     vals.into_iter().map(|v| (v, v < lim)).collect()
@@ -712,6 +723,38 @@ fn generated_seeds(seed: u64, per_kind: usize, max_lit: usize) -> Vec<Vec<u8>> {
                 v.push(b);
             }
             let _ = &mut rng;
+        }
+    }
+    v
+}
+
+/// directed passes: for every constant of /repo's sources that the baseline does not have (srcdict.rs)
+/// valid responses of every kind generated with that constant in focus
+fn focused_seeds(seed: u64, rounds: usize, max_lit: usize) -> Vec<Vec<u8>> {
+    use vh_proto::srcdict;
+    let mut v = vec![];
+    for (fi, (fo, _name)) in srcdict::new_foci().into_iter().take(24).enumerate() {
+        for round in 0..rounds {
+            for k in 0..KINDS.len() {
+                let cfg = GenCfg { max_depth: if round % 2 == 1 { 3 } else { 2 }, adversarial: round % 2 == 1, max_str: 12, max_lit };
+                let r = std::panic::catch_unwind(|| {
+                    srcdict::with_focus(fo, || {
+                        let mut rng2 = Rng::new(seed.wrapping_mul(104729).wrapping_add((fi * 100_000 + round * 1000 + k) as u64));
+                        let val = gen_response_kind(&mut rng2, &cfg, k);
+                        let st = Style {
+                            random_case: rng2.bool(),
+                            string_forms: rng2.below(3) as u8,
+                            zero_pad: if rng2.bool() { 0 } else { 3 },
+                            deviations: rng2.bool(),
+                            lsub: rng2.chance(1, 8),
+                        };
+                        print_response(&val, &mut rng2, &st)
+                    })
+                });
+                if let Ok(b) = r {
+                    v.push(b);
+                }
+            }
         }
     }
     v
@@ -1114,6 +1157,10 @@ fn main() {
     let corpus = load_corpus(&corpus_dir);
     let gen = generated_seeds(seed, if thorough { 40 } else { 5 }, if thorough { 65536 } else { 2000 });
     let n_gen = gen.len();
+    let focused = focused_seeds(seed, if thorough { 8 } else { 3 }, 2000);
+    let n_focused = focused.len();
+    let mut gen = gen;
+    gen.extend(focused.iter().cloned());
     let seeds = seeds_for(&corpus, gen);
     init_buckets(&seeds);
     let total = Mutex::new(Log::default());
@@ -1123,6 +1170,7 @@ fn main() {
         for shard in 0..shards {
             let total = &total;
             let seeds = &seeds;
+            let focused = &focused;
             let corpus = &corpus;
             let prop = prop.clone();
             let model = model.clone();
@@ -1157,6 +1205,26 @@ fn main() {
                         }
                         ctx.log.count("nesting-boundary");
                     }
+                }
+                // directed passes for new source constants: the focused valid responses as they are
+                for (i, input) in focused.iter().enumerate() {
+                    if i % shards != shard {
+                        continue;
+                    }
+                    match prop.as_str() {
+                        "C02" => {
+                            oracle_c02_pair(&mut ctx, input, b"* 1 EXISTS\r\n", "source-constant");
+                            if input.len() <= 4096 {
+                                let cuts: Vec<usize> = (0..input.len()).collect();
+                                oracle_c02_prefixes(&mut ctx, input, &cuts, "source-constant");
+                            }
+                        }
+                        "C09" => oracle_c09(&mut ctx, input, "source-constant"),
+                        _ => {
+                            oracle_c01(&mut ctx, input, "source-constant");
+                        }
+                    }
+                    ctx.log.count("source-constant");
                 }
                 let sh = shards as u64;
                 match prop.as_str() {
@@ -1207,6 +1275,10 @@ fn main() {
     log.count_n("seeds:built-in", SEEDS.len() as u64);
     log.count_n("seeds:corpus", corpus.len() as u64);
     log.count_n("seeds:generated", n_gen as u64);
+    log.count_n("seeds:source-constant-focused", n_focused as u64);
+    log.count_n("srcdict:ints", vh_proto::srcdict::dict().ints.len() as u64);
+    log.count_n("srcdict:strings", vh_proto::srcdict::dict().strs.len() as u64);
+    log.count_n("srcdict:new", vh_proto::srcdict::new_foci().len() as u64);
     // samples: a few evaluated inputs written out
     let mut srng = Rng::new(seed);
     for _ in 0..6 {
